@@ -137,3 +137,57 @@ R.contract(
     ],
     prop=["C07"],
 )
+
+
+# C07: RESET_STREAM acceptance: the final size is charged like data (bytes between the highest offset seen and the
+# final size), FLOW_CONTROL_ERROR exactly when it lies beyond the stream's advertised limit or pushes the connection
+# total over MAX_DATA, FINAL_SIZE_ERROR exactly when it contradicts an already fixed final size.
+R.contract(
+    "QuicConnection._handle_reset_stream_frame",
+    assume_pre=["conn_limits_distinct(self)", "self._local_max_data.used >= 0", "self._quic_logger is None or context.quic_logger_frames is not None"],
+    ghost_at={
+        "newly_received = max(0, final_size - stream.receiver.highest_offset)": {
+            "g_h0": "stream.receiver.highest_offset",
+            "g_fs0": "stream.receiver._final_size",
+            "g_lim": "stream.max_stream_data_local",
+        }
+    },
+    raises={"BufferReadError": None, "StreamFinishedError": None, "QuicConnectionError": None},
+    modifies=[],
+    on_raise={
+        "QuicConnectionError": [
+            "exc_error_code == QuicErrorCode.STREAM_STATE_ERROR or exc_error_code == QuicErrorCode.STREAM_LIMIT_ERROR or exc_error_code == QuicErrorCode.FLOW_CONTROL_ERROR or exc_error_code == QuicErrorCode.FINAL_SIZE_ERROR",
+            "implies(exc_error_code == QuicErrorCode.FLOW_CONTROL_ERROR, final_size > stream.max_stream_data_local or old(self._local_max_data.used) + max(0, final_size - stream.receiver.highest_offset) > self._local_max_data.value)",
+            "implies(exc_error_code == QuicErrorCode.FINAL_SIZE_ERROR, g_fs0 is not None and final_size != g_fs0)",
+            "self._local_max_data.used == old(self._local_max_data.used) and self._local_max_data.value == old(self._local_max_data.value)",
+        ],
+    },
+    ensures=[
+        "final_size <= g_lim and g_lim == stream.max_stream_data_local",
+        "self._local_max_data.used == old(self._local_max_data.used) + max(0, final_size - g_h0)",
+        "self._local_max_data.used <= self._local_max_data.value and self._local_max_data.value == old(self._local_max_data.value)",
+        "not (g_fs0 is not None and final_size != g_fs0)",
+        "stream.receiver._final_size == final_size and stream.receiver.is_finished",
+        "stream_id in self._streams and stream == self._streams[stream_id]",
+    ],
+    prop=["C07"],
+)
+
+# C07: queued path challenges per path never exceed MAX_REMOTE_CHALLENGES (32); the cap is tested on the queue that is
+# appended to; an accepted challenge is stored as the 8 bytes received.
+R.contract(
+    "QuicConnection._handle_path_challenge_frame",
+    assume_pre=["self._quic_logger is None or context.quic_logger_frames is not None"],
+    let={"q0": "context.network_path.remote_challenges", "n0": "len(context.network_path.remote_challenges)"},
+    raises={"BufferReadError": None},
+    modifies=[],
+    ensures=[
+        "len(context.network_path.remote_challenges) == (n0 + 1 if n0 < 32 else n0)",
+        "implies(n0 <= 32, len(context.network_path.remote_challenges) <= 32)",
+        "forall(lambda k: implies(0 <= k < n0, bytes_eq(at(context.network_path.remote_challenges, k), at(q0, k))))",
+        "implies(n0 < 32, len(at(context.network_path.remote_challenges, n0)) == 8 and bytes_eq(at(context.network_path.remote_challenges, n0), data))",
+        "forall(lambda p: implies(p != context.network_path, same(old(raw(p, 'remote_challenges')), raw(p, 'remote_challenges'))), types={'p': 'QuicNetworkPath'})",
+    ],
+    on_raise={"BufferReadError": ["len(context.network_path.remote_challenges) == n0"]},
+    prop=["C07"],
+)
